@@ -23,6 +23,38 @@ CHECKS = {
                 note=BASE_NOTE + " Assumed: scipy maximum_bipartite_matching and augment() return a matching; termination not proved."),
 }
 
+OTHER_NOTE = BASE_NOTE + " Numeric clauses are runtime contracts against independent dense references on bounded inputs (labelled bounded, never counted as proved)."
+CHECKS.update({
+    "C03": dict(cat="other", ref="DESIGN §8 C03, App. A.4",
+                text="move_qnidx proved to preserve the QN-valid invariant for all sizes/labels/tensor contents (pyvc, z3); all arithmetic contracts "
+                     "(dense sum/product/adjoint/overlap, QN-valid result, correct after later canonicalise/compress, operands untouched) evaluated on "
+                     "bounded-exhaustive gauge histories against an independent dense contraction.",
+                technique="contract-based deductive verification (pyvc VCs with loop invariants, z3) for the label bookkeeping; runtime contracts on the real methods as bounded stand-in",
+                note=OTHER_NOTE),
+    "C04": dict(cat="other", ref="DESIGN §8 C04, App. A.3",
+                text="canonicalise's sweep/centre/direction discipline proved for all chain lengths and stop sites from the current source (pyvc: loop invariant, "
+                     "inlined iter_idx_list/_switch_direction, _push_cano by contract); dense preservation, isometries, bond bounds, lossless compress and "
+                     "variational compression are runtime contracts on bounded inputs.",
+                technique="contract-based deductive verification (pyvc, z3) of the index discipline; runtime contracts as bounded stand-in for the numeric clauses",
+                note=OTHER_NOTE + " Assumed contract: _push_cano moves the centre by one site and keeps the dense object."),
+    "C05": dict(cat="other", ref="DESIGN §8 C05, App. A.2",
+                text="Kept-count functions (_fixed_m_trunc, _threshold_m_trunc, compute_m_trunc) proved for all inputs: result <= available singular values and <= "
+                     "the limit of the bond the caller truncates; induction lemmas for the threshold count; structural link to the call sites; Eckart-Young / "
+                     "TT-SVD sandwich against dense SVD spectra as runtime contracts (chains incl. degenerate spectra and non-uniform limits).",
+                technique="contract-based deductive verification (pyvc, z3; call by contract; induction lemmas) + theorem-derived runtime contracts as bounded stand-in",
+                note=OTHER_NOTE + " Cited lemmas: Eckart-Young, TT-SVD quasi-optimality. Assumed: scipy.linalg.norm >= 0."),
+    "C06": dict(cat="other", ref="DESIGN §8 C06",
+                text="QN-valid representation invariant: proved preserved by move_qnidx for all sizes; audited after every step of random operation histories "
+                     "(all live objects), for every sector of every model incl. extreme ones, constructors, DMRG and evolution steps.",
+                technique="contract-based deductive verification (pyvc, z3) of the centre move; representation-invariant runtime contracts over bounded histories",
+                note=OTHER_NOTE),
+    "C13": dict(cat="exploration", ref="DESIGN §8 C13",
+                text="Frame contracts (represented vector, total charge and label validity of every live object unchanged; in-place mutation of a derived result "
+                     "does not leak) evaluated after every step of random operation histories incl. every evolution scheme; bounded, nothing proved.",
+                technique="frame contracts evaluated at run time on the real methods over bounded random histories (bounded stand-in of the contract family)",
+                note=OTHER_NOTE),
+})
+
 NOT_YET = {}
 
 
@@ -53,9 +85,9 @@ def main():
                   "baseline_off_cmd": "cd /repo && /venv/bin/python -m pytest -ra -q -p no:cacheprovider --timeout=900 --continue-on-collection-errors",
                   "source_commits": [], "add_only": True},
         "engines": [
-            {"name": "pyvc", "path": "vk/pyvc", "serves_properties": ["C20"], "kind_free_text": "AST -> verification conditions (loop invariants, call by contract) -> z3/cvc5"},
+            {"name": "pyvc", "path": "vk/pyvc", "serves_properties": ["C03", "C04", "C05", "C06", "C20"], "kind_free_text": "AST -> verification conditions (loop invariants, call by contract) -> z3/cvc5"},
             {"name": "exact-exec", "path": "vk/symx/exactexec.py", "serves_properties": ["C19"], "kind_free_text": "real source executed on exact rationals / z3 reals"},
-            {"name": "rtc", "path": "vk/rtc", "serves_properties": ["C20"], "kind_free_text": "runtime contracts on the real functions, bounded-exhaustive inputs (bounded stand-in, never counted as proved)"},
+            {"name": "rtc", "path": "vk/rtc", "serves_properties": ["C03", "C04", "C05", "C06", "C13", "C20"], "kind_free_text": "runtime contracts on the real functions, bounded-exhaustive inputs (bounded stand-in, never counted as proved)"},
         ],
         "checks": checks,
         "not_applicable": na,
